@@ -10,9 +10,10 @@ vars == <<par, tries, sentOn, state>>
 Idempotent(m) == m \in {"GET", "PUT", "DELETE"}
 Init == /\ par \in [method : {"GET", "PUT", "DELETE", "POST", "PATCH", "FOO"}, body : {"none", "cl", "chunked"},
                     fail : {"refuse", "close_early", "close_after_head", "close_after_request", "reset_mid_response"},
-                    reused : BOOLEAN, addrs : 1..2]
+                    reused : BOOLEAN, addrs : 1..2,
+                    pconnNonretriable : BOOLEAN]     \* squid.conf: server_pconn_for_nonretriable allow all
         /\ (par.method \in {"GET", "DELETE"} => par.body = "none")
-        /\ (par.method \in {"POST", "PUT", "PATCH"} => par.body # "none")
+        /\ (par.method = "PUT" => par.body # "none")           \* POST / PATCH / extension methods also come without a body
         /\ (par.fail = "refuse" => ~par.reused)
         /\ tries = 0 /\ sentOn = 0 /\ state = "start"
 \* first attempt fails as scripted; "refuse" fails before anything is sent
